@@ -81,17 +81,26 @@ def parseCV? (s : String) (dss : List PDS) : Option (List (List (List Nat × Lis
     else per.mapM (fun fs => (splitNE fs "|").mapM parseFold?)
   | _ => none
 
-def parseRun? (s : String) : Option RunSpec :=
+/-- `<owP owF saveF pot as T/F>:<fail|none>:<fresh T/F>:<number of strategies used in this run>` -/
+def parseRun? (s : String) : Option (RunSpec × Nat) :=
   match s.splitOn ":" with
-  | [flags, fail, fresh] =>
-    match flags.toList.map (fun c => c == 'T'), parseBool? fresh with
-    | [owP, owF, saveF, pot], some fresh =>
+  | [flags, fail, fresh, ns] =>
+    match flags.toList.map (fun c => c == 'T'), parseBool? fresh, parseNat? ns with
+    | [owP, owF, saveF, pot], some fresh, some ns =>
       if flags.toList.all (fun c => c == 'T' || c == 'F') then
-        if fail == "none" then some ⟨⟨owP, owF, saveF, pot⟩, none, fresh⟩
-        else (parseNat? fail).map (fun k => ⟨⟨owP, owF, saveF, pot⟩, some k, fresh⟩)
+        if fail == "none" then some (⟨⟨owP, owF, saveF, pot⟩, none, fresh⟩, ns)
+        else (parseNat? fail).map (fun k => (⟨⟨owP, owF, saveF, pot⟩, some k, fresh⟩, ns))
       else none
-    | _, _ => none
+    | _, _, _ => none
   | _ => none
+
+/-- a history in which every run may use a prefix of the strategies (a benchmark that grows) -/
+def runHist {K} [DecidableEq K] (cfg : Cfg String K) (L : Learner Rat) (dsl : List (DS String))
+    (sts : List (Strat String)) : St String K Rat → List (RunSpec × Nat) → List (Run String K Rat)
+  | _, [] => []
+  | st, (rs, ns) :: t =>
+    let r := runOne cfg L (mkWork dsl (sts.take ns)) st rs
+    r :: runHist cfg L dsl sts r.st t
 
 /-! printing -/
 
@@ -165,13 +174,12 @@ def handle (toks : List String) : String :=
       | none => "bad-op"
       | some folds =>
         let dsl : List (DS String) := (pds.zip folds).map (fun (d, f) => ⟨d.name, d.data, f⟩)
-        let items := mkWork dsl sts
         let nfolds := (folds.map List.length).foldl max 0
         let L := learner ncls
         if store == "hdd" then
-          showHistory (hddCfg String) showHddKey nfolds (runHistory (hddCfg String) L items St.empty rspecs)
+          showHistory (hddCfg String) showHddKey nfolds (runHist (hddCfg String) L dsl sts St.empty rspecs)
         else if store == "ram" then
-          showHistory ramCfg id nfolds (runHistory ramCfg L items St.empty rspecs)
+          showHistory ramCfg id nfolds (runHist ramCfg L dsl sts St.empty rspecs)
         else "bad-op"
     | _, _, _, _ => "bad-op"
   | _ => "bad-op"
